@@ -11,7 +11,7 @@ from vverif import gen_runs
 from vverif.core import Component, Result
 from vverif.harness import algos as ha
 
-RULE = ("(a) history = generated sequence of refine_design calls on AdaptivelyDiscretizedDesignSpace (d=1..3, max depth 2..5, any leaf below the maximum "
+RULE = ("(a) history = generated sequence of refine_design calls on AdaptivelyDiscretizedDesignSpace (d=1..3, max depth 2..5 or one branch down to depth 6..12, any leaf below the maximum "
         "depth in any order, regions updated in between) checked with exact dyadic arithmetic: 2^d children, half side, tile the parent, centres, depth+1 <= max, "
         "parent's region, earlier entries untouched; should_refine_design is False at the maximum depth. (b) VOGP_AD runs on user-defined continuous problems: "
         "after every step S and P are leaves with pairwise interior-disjoint cells, all leaves tile the unit cube, a refined node is replaced by its children in "
@@ -89,11 +89,12 @@ def check_space(case):
 
     d, m, md = case["d"], case["m"], case["max_depth"]
     ds = AdaptivelyDiscretizedDesignSpace(d, m, delta=0.1, max_depth=md)
-    labels = [f"d={d}", f"max_depth={md}"]
+    labels = [f"d={d}", f"max_depth={md}" if md <= 5 else "max_depth>=6"]
     if ds.cells[0] != [[0, 1]] * d or ds.point_depths[0] != 1 or not np.array_equal(ds.points[0], [0.5] * d):
         return Result.violation("C18:init", f"{ds.cells} {ds.point_depths} {ds.points}", labels)
     stub = HyperStub(m, case["ls"][:m] if len(case["ls"]) >= m else case["ls"] * m, [1.0] * m, case["std"][:m] if len(case["std"]) >= m else case["std"] * m)
     refined = set()
+    last_children = []
     n_ref = 0
     deep = False
     for op in case["ops"]:
@@ -110,6 +111,8 @@ def check_space(case):
                 return Result.violation("C18:should-refine-at-max-depth", f"depth {ds.point_depths[i]} max {md}", labels)
             continue
         cand = [i for i in leaves if ds.point_depths[i] < md]
+        if op[0] == "refine_last" and last_children:
+            cand = [i for i in last_children if ds.point_depths[i] < md] or cand  # go deeper along one branch
         if not cand:
             continue
         parent = cand[op[1] % len(cand)]
@@ -125,6 +128,7 @@ def check_space(case):
                     not (np.array_equal(a.lower, b[0]) and np.array_equal(a.upper, b[1])) for a, b in zip(ds.confidence_regions[:n_before], snap[3])):
             return Result.violation("C18:refine:earlier-entries-changed", "", labels)
         refined.add(parent)
+        last_children = list(range(n_before, len(ds.points)))
         n_ref += 1
         deep |= ds.point_depths[parent] >= 2
     leaves = [i for i in range(len(ds.points)) if i not in refined]
@@ -260,12 +264,13 @@ def st_gate(draw):
 @st.composite
 def st_space(draw):
     d = draw(st.integers(1, 3))
-    md = draw(st.integers(2, 5 if d < 3 else 3))
+    chain = draw(st.integers(0, 3)) == 0  # one branch refined down to depth 6..12 (cells of side 2^-11 are still exact)
+    md = draw(st.integers(6, 12)) if chain else draw(st.integers(2, 5 if d < 3 else 3))
     ops = []
-    for _ in range(draw(st.integers(1, 10 if d < 3 else 5))):
-        k = draw(st.sampled_from(["refine", "refine", "refine", "update", "should"]))
-        if k == "refine":
-            ops.append(["refine", draw(st.integers(0, 60))])
+    for _ in range(draw(st.integers(5, 12)) if chain else draw(st.integers(1, 10 if d < 3 else 5))):
+        k = draw(st.sampled_from(["refine_last"] * 6 + ["update", "should"] if chain else ["refine", "refine", "refine", "update", "should"]))
+        if k in ("refine", "refine_last"):
+            ops.append([k, draw(st.integers(0, 60))])
         elif k == "update":
             ops.append(["update", draw(st.lists(st.integers(0, 60), min_size=1, max_size=4)), draw(st.sampled_from([0.5, 1.0, 3.0]))])
         else:
@@ -281,7 +286,7 @@ def _ad():
 
 
 COMPONENTS = [
-    Component("refine_histories", check_space, strategy=st_space, quick=1500, thorough=40000, rule="1..10 ops: refine any leaf below max depth / update / should_refine"),
+    Component("refine_histories", check_space, strategy=st_space, quick=1500, thorough=40000, rule="1..12 ops: refine any leaf below max depth (a quarter of the cases: one branch down to depth 6..12) / update / should_refine"),
     Component("covering_gate_injected", check_gate, strategy=st_gate, quick=200, thorough=5000,
               rule="VOGP_AD.epsiloncovering() on an injected candidate set of mixed depths (any index order) with un-coverable regions"),
     Component("vogp_ad_runs", check_run, strategy=_ad, quick=48, thorough=1500, rule="VOGP_AD runs (<= 80 steps), d=1..3, depth 1..3, cones, eps, contractions"),
